@@ -786,7 +786,9 @@ func (t *tree) parseHeaderParam(token item) ast.Node {
 // An expression is basically anything that you can put inside a print tag.
 // For example, string, list or map literals, arithmetic, boolean operations, etc.
 func Expr(str string) (node ast.Node, err error) {
-	var t = &tree{lex: lexExpr("", str)}
+	var lex = lexExpr("", str)
+	var t = &tree{lex: lex}
+	defer lex.drain() // whatever follows the expression is not read: let the scanner finish
 	defer t.recover(&err)
 	return t.parseExpr(0), err
 }
